@@ -340,9 +340,10 @@ def oneshot(rng, T, roots, fail=(), gated=True, tag='os', cap=None, hang_s=None,
                         bad('C03', '%s completed in the first run, nothing was touched, yet its script ran again in the second run' % t)
                 err2 = run2.stderr()
                 for t in sorted(failed):
-                    # ungated: the second run stops at the FIRST script that fails again; a sibling that did not complete in the
-                    # first run may then never be started — excused unless zinoma says it skipped it
-                    aborted_by_other = (not gated and run2.exit_code not in (0, None) and
+                    # the second run stops at the FIRST script that fails again (gated or not: a script that kills itself does so again);
+                    # a sibling that did not complete in the first run may then never be started — excused unless zinoma says it
+                    # skipped it
+                    aborted_by_other = (run2.exit_code not in (0, None) and
                                         any(k == 'end' and x != t and x in failed and st != '0' for k, x, st in tr2))
                     skipped_t = (' %s - Build skipped' % t) in err2
                     if t in clo and t not in started2 and not (tdeps(T, t) & (failed - started2)) and \
